@@ -1,7 +1,7 @@
 #!/bin/sh
 # usage: tools/r9_batch.sh <prop>...   run each round-9 patch of the given properties against the check of its own property
 for P in "$@"; do for K in 1 2 3; do
-  [ -f /tmp/r9out/$P/patch$K.diff ] || continue
-  echo "### $P patch$K: $(python3 -c "import json;print(json.load(open('/tmp/r9out/$P/meta$K.json'))['summary'][:150])")"
-  sh /verif/tools/try_patch.sh /tmp/r9out/$P/patch$K.diff $P 2>&1 | tail -3
+  [ -f /tmp/${R:-r9}out/$P/patch$K.diff ] || continue
+  echo "### $P patch$K: $(python3 -c "import json;print(json.load(open('/tmp/${R:-r9}out/$P/meta$K.json'))['summary'][:150])")"
+  sh /verif/tools/try_patch.sh /tmp/${R:-r9}out/$P/patch$K.diff $P 2>&1 | tail -3
 done; done
